@@ -160,6 +160,9 @@ func runCase(k *kase, m *modelIO) (fails []failure, st stats) {
 		}
 		toks, done := k.canonWrites(prims)
 		st.writeLists = append(st.writeLists, toks)
+		if a := atomicSwitch(prims); a != "" {
+			addFail(failure{kind: "oracle", what: a, call: ci, k: -1})
+		}
 		if strings.HasPrefix(res, "panic") {
 			addFail(failure{kind: "crash", what: "panic: InsertChain panicked: " + res, call: ci, k: -1})
 			return
@@ -557,6 +560,30 @@ func run(c *vh.Ctx) error {
 			doCase(fmt.Sprintf("fork-%s-%d", mode, i), forkCase(mode, f.p, f.x, f.y, f.crash))
 			res.Dist("fork-in-one-call")
 		}
+	}
+	// size thresholds: the same fork shapes and small orders with a database that reports batch sizes 4096 times larger
+	// (every youdb.IdealBatchSize chunking in the code under test is then hit by small batches), crash-enumerated
+	inflated := [][]string{forkCase("solo", 1, 2, 3, true), forkCase("strict", 1, 2, 3, true), forkCase("solo", 2, 3, 6, true), forkCase("strict", 0, 2, 5, true)}
+	for _, mode := range []string{"solo", "strict"} {
+		fam := smallFamily(mode)
+		inflated = append(inflated, fam[int(c.Seed)%len(fam)])
+		if c.Thorough() {
+			inflated = append(inflated, fam...)
+		}
+	}
+	for i, lines := range inflated {
+		doCase(fmt.Sprintf("inflate-%d", i), append(append([]string{}, lines...), "P inflate 4096"))
+		res.Dist("inflated-batch-size")
+	}
+	// heavy reorg for real: a branch of full blocks is displaced and re-adopted by one import whose index batch exceeds
+	// youdb.IdealBatchSize; every crash point of that import is enumerated
+	heavy := [][2]int{{31, 100}}
+	if c.Thorough() {
+		heavy = append(heavy, [2]int{12, 300}, [2]int{40, 120})
+	}
+	for i, h := range heavy {
+		doCase(fmt.Sprintf("heavy-%d", i), heavyCase(h[0], h[1]))
+		res.Dist("heavy-reorg")
 	}
 	// random structured cases
 	n := c.N(300, 2400)
